@@ -251,6 +251,7 @@ type FuncCtx struct {
 	frameWhole    map[string]bool
 	curReach      string
 	cellObjs      map[types.Object]bool
+	cellNames     map[string]bool
 	atSites       map[string]int
 	atMatched     map[int]int
 	curEnv        *Env
@@ -1127,10 +1128,18 @@ func (fc *FuncCtx) cellOf(obj types.Object) bool {
 						fc.cellObjs[d.Object()] = true
 					}
 				}
+				// a variable captured by a function literal lives in a cell named after it even when the
+				// function itself only loads and stores it (no address-of debug reference)
+				if a, ok := in.(*ssa.Alloc); ok && a.Comment != "" {
+					if fc.cellNames == nil {
+						fc.cellNames = map[string]bool{}
+					}
+					fc.cellNames[a.Comment] = true
+				}
 			}
 		}
 	}
-	return fc.cellObjs[obj]
+	return fc.cellObjs[obj] || fc.cellNames[obj.Name()]
 }
 
 func (fc *FuncCtx) debugName(in ssa.Instruction, vars map[string]TV) {
@@ -1259,6 +1268,7 @@ func (fc *FuncCtx) enterLoop(li *loopInfo, b *ssa.BasicBlock, pre *State, reach 
 	{
 		env := fc.envFor(pre, fc.loopNames(li, entryPhi))
 		env.iter = iterOf(entryPhi)
+		env.loop = li
 		// definitional unfoldings are valid in every state: also available for the entry check
 		for i, c := range lc.Unfold {
 			var t string
@@ -1331,6 +1341,7 @@ func (fc *FuncCtx) enterLoop(li *loopInfo, b *ssa.BasicBlock, pre *State, reach 
 	}
 	env := fc.envFor(st, fc.loopNames(li, headPhi))
 	env.iter = iterOf(headPhi)
+	env.loop = li
 	for i, c := range lc.Invariants {
 		var t string
 		if err := catchTr(fmt.Sprintf("%s %s invariant %d", fc.fnName, label, i), func() { t = env.trBool(c.E) }); err != nil {
@@ -1430,6 +1441,7 @@ func (fc *FuncCtx) backEdge(li *loopInfo, p *ssa.BasicBlock, ec string, st *Stat
 	}
 	backPhi := func(phi *ssa.Phi) TV { return fc.coerce(fc.v(phi.Edges[idx]), phi.Type()) }
 	env := fc.envFor(st, fc.loopNames(li, backPhi))
+	env.loop = li
 	if cp, isRange := counterPhi(b, func(p *ssa.BasicBlock) bool { return li.body[p] }); cp != nil {
 		if isRange {
 			env.iter = "(+ " + backPhi(cp).T + " 1)"
